@@ -11,4 +11,27 @@ Definition a_amv := amv Refine.hsq.
 (* the legal move set: the generated moves that MovePreallocated accepts *)
 Definition a_legal (p : position) : list rmove :=
   filter (fun m => match a_amv p m with Ok _ => true | _ => false end) (all_moves p).
-Definition a_hash (p : position) : N := hash_of p.
+
+(* Position.Hash(): GameOver.hash_of, with the reduction mod 2^64 done by masking instead of by division (the
+   extracted binary division dominated the driver's run time); equal to hash_of by a_hash_eq *)
+(* the constant factor goes first: binary multiplication adds once per set bit of its FIRST argument (fnvPrime has 7) *)
+Definition fmul64 (a b : N) : N := N.land (b * a) (N.ones 64).
+Definition fhash8 (h b : N) : N := fmul64 (N.lxor h b) fnvPrime.
+Definition fhash64 (basis w : N) : N :=
+  let h := basis in
+  let h := fmul64 (N.lxor h (N.land w 255)) fnvPrime in
+  let h := fmul64 (N.lxor h (N.land (N.shiftr w 8) 255)) fnvPrime in
+  let h := fmul64 (N.lxor h (N.land (N.shiftr w 16) 255)) fnvPrime in
+  fmul64 (N.lxor h (N.shiftr w 24)) fnvPrime.
+Definition a_hash (p : position) : N :=
+  let h := hash p in
+  let h := fhash64 h (White p) in let h := fhash64 h (Black p) in
+  let h := fhash64 h (Standing p) in let h := fhash64 h (Caps p) in
+  fhash8 h (if to_move_white p then 128 else 64)%N.
+
+Lemma fmul64_eq a b : fmul64 a b = mul64 a b.
+Proof. unfold fmul64, mul64. rewrite N.mul_comm. apply N.land_ones. Qed.
+Lemma fhash64_eq b w : fhash64 b w = hash64 b w.
+Proof. unfold fhash64, hash64. rewrite !fmul64_eq. reflexivity. Qed.
+Lemma a_hash_eq p : a_hash p = hash_of p.
+Proof. unfold a_hash, hash_of, fhash8, hash8. rewrite !fhash64_eq, fmul64_eq. reflexivity. Qed.
